@@ -1,14 +1,20 @@
 (* ConcLin.v — C10, linearizability: what is proved, what is refuted.
-   Proved (all schedules, any number of threads): threads that only read (get_appointment) return what
-   they return when run alone, and leave the state untouched: get || get || ... equals every
-   sequential order.
+   Proved (all schedules, any number of threads):
+     - threads that only read (get_appointment) return what they return when run alone, and leave the
+       state untouched: get || get || ... equals every sequential order;
+     - a request never panics at a site its own program does not contain, whatever the other threads do
+       (`only_own_aborts`): add_appointment can only abort in the responder's get_height unwrap (which the
+       sequential half of C11 proves unreachable), get_appointment nowhere - in particular not when the
+       block that purges the user is processed in between (the repaired unwraps: ConcPurge.v has the
+       purge itself).
    Refuted by witness schedules (event granularity, evaluated in the kernel on a small reachable
    state; each witness is replayed on the real code by the C10 check):
      - two identical add_appointment are charged twice;
-     - register || the block that purges the user: the renewal is acknowledged and lost;
-     - get_appointment || the purging block: the request aborts (has_subscription_expired unwrap);
      - add_appointment || the block with its dispute: the final state carries the height stamps of
-       neither sequential order. *)
+       neither sequential order.
+   Witnesses that are now POSITIVE (the schedules that used to kill the tower, same states):
+     - get_appointment || the purging block: authentication failure, no abort;
+     - add_appointment || the purging block: refused, no abort, no poisoned lock. *)
 From TeosModel Require Import Base ListAux TxIndex Tower ConcTower ConcTowerProofs.
 From Coq Require Import Lia.
 Local Open Scope N_scope.
@@ -34,8 +40,16 @@ Proof.
   unfold get_p, get_appointment_p, authenticate_p, expired_p, reach_p. destruct signer as [u|]; cbn; repeat split; auto.
   intros ou. destruct ou as [u'|]; cbn; repeat split; auto.
   intros r. destruct r as [[ex e]|]; cbn; repeat split; auto.
-  - destruct ex; cbn; repeat split; auto.
-  - intros [ex e]. destruct ex; cbn; repeat split; auto.
+  destruct ex; cbn; repeat split; auto.
+Qed.
+
+Lemma getsub_readonly signer : readonly (getsub_p signer).
+Proof.
+  unfold getsub_p, get_subscription_info_p, authenticate_p, expired_p, reach_p. destruct signer as [u|]; cbn; repeat split; auto.
+  intros ou. destruct ou as [u'|]; cbn; repeat split; auto.
+  intros r. destruct r as [[ex e]|]; cbn; repeat split; auto.
+  destruct ex; cbn; repeat split; auto.
+  intros oi. destruct oi as [ui|]; cbn; repeat split; auto.
 Qed.
 
 Definition ended_by_abort (r : tout) : Prop :=
@@ -106,6 +120,129 @@ Proof.
 Qed.
 
 (* ------------------------------------------------------------------------------------------ *)
+(* a thread panics only at the sites of its own program, whatever the other threads do *)
+
+Fixpoint absites {A} (S : site -> Prop) (K : A -> Prop) (p : prog A) : Prop :=
+  match p with
+  | Ret a => K a
+  | Acq _ k | Rel _ k => absites S K k
+  | Act B f k => (forall t s t', f t = Abort s t' -> S s) /\ forall b, absites S K (k b)
+  end.
+
+Lemma absites_bind {A C} S (K : C -> Prop) (p : prog A) (g : A -> prog C) :
+  absites S (fun a => absites S K (g a)) p -> absites S K (pbind p g).
+Proof.
+  induction p as [a|l k IH|l k IH|B f k IH]; intros Hp; cbn [pbind absites] in *; auto.
+  destruct Hp as [H1 H2]. split; [exact H1|intros b; apply IH; apply H2].
+Qed.
+
+(* a returned value that is not itself an abort at a foreign site *)
+Definition okout (S : site -> Prop) (o : out) : Prop := match o with OAbort s => S s | _ => True end.
+
+Definition own_aborts (S : site -> Prop) (th : cthread) : Prop :=
+  match ct_st th with
+  | Running q => absites S (okout S) q
+  | Ended (TOut o) => okout S o
+  | Ended (TPoisoned _) => True
+  end.
+
+Lemma own_aborts_step S c i j c' th :
+  step_thread c i = Some c' -> nth_error (cf_threads c) j = Some th -> own_aborts S th ->
+  exists th', nth_error (cf_threads c') j = Some th' /\ own_aborts S th'.
+Proof.
+  intros Hs Hj Hth. destruct (step_thread_cases c i c' Hs) as [thi [q [Hn [Hst Hc]]]].
+  destruct (Nat.eq_dec i j) as [->|Hij].
+  - assert (thi = th) by congruence. subst thi. unfold own_aborts in Hth. rewrite Hst in Hth.
+    destruct Hc as [[l [k [-> [_ [_ ->]]]]]|[[l [k [-> [_ [_ ->]]]]]|[[l [k [-> ->]]]|[[B [f [k [b [t' [-> [Hf ->]]]]]]]|[B [f [k [s [t' [-> [Hf ->]]]]]]]]]]];
+      unfold die; cbn [cf_threads]; eexists; (split; [eapply nth_error_set_nth_eq; eauto|]); unfold own_aborts; cbn [ct_st absites okout] in *.
+    + exact Hth.
+    + exact I.
+    + exact Hth.
+    + apply Hth.
+    + destruct Hth as [H1 _]. eapply H1. exact Hf.
+  - exists th. split; [|exact Hth].
+    destruct Hc as [[l [k [_ [_ [_ ->]]]]]|[[l [k [_ [_ [_ ->]]]]]|[[l [k [_ ->]]]|[[B [f [k [b [t' [_ [_ ->]]]]]]]|[B [f [k [s [t' [_ [_ ->]]]]]]]]]]];
+      unfold die; cbn [cf_threads]; rewrite nth_error_set_nth_neq by exact Hij; exact Hj.
+Qed.
+
+(* ANY threads, ANY schedule: thread j, started with program p, can only end with `OAbort s` for a site s
+   that p itself contains (a poisoned lock it runs into is reported as TPoisoned, not as an abort of its own) *)
+Theorem only_own_aborts S t ps sched j p s :
+  nth_error ps j = Some p -> absites S (okout S) p ->
+  nth_error (snd (run_sched t ps sched)) j = Some (Some (TOut (OAbort s))) -> S s.
+Proof.
+  intros Hp Hab. unfold run_sched. cbn [snd].
+  assert (H : exists th, nth_error (cf_threads (run_config (init_config t ps) sched)) j = Some th /\ own_aborts S th).
+  { apply (run_config_inv (fun c => exists th, nth_error (cf_threads c) j = Some th /\ own_aborts S th)).
+    - intros c i c' [th [Hj Hth]] Hs. eapply own_aborts_step; eauto.
+    - exists (spawn p). split; [cbn [cf_threads init_config]; rewrite nth_error_map, Hp; reflexivity|exact Hab]. }
+  destruct H as [th [Hj Hth]]. rewrite nth_error_map, Hj. cbn [option_map]. intros Hr. inversion Hr as [Hres]. clear Hr.
+  unfold thread_result, own_aborts in *. destruct (ct_st th) as [q|r].
+  - destruct q; try discriminate. inversion Hres; subst. exact Hth.
+  - inversion Hres; subst. exact Hth.
+Qed.
+
+(* ---- the sites of the requests ---- *)
+Lemma index_lookup_abort p t s t' : index_lookup p t = Abort s t' -> s = S_r_get_height_unwrap.
+Proof.
+  unfold index_lookup. destruct (ti_get (r_index t) p); [|discriminate].
+  destruct (ti_get_height (r_index t) _); [discriminate|]. intros H; inversion H; reflexivity.
+Qed.
+Lemma ask_mempool_ok sc p t s t' : ask_mempool sc p t = Abort s t' -> False.
+Proof. unfold ask_mempool. destruct (in_mempool sc t p). discriminate. Qed.
+Lemma send_act_ok sc tx t s t' : send_act sc tx t = Abort s t' -> False.
+Proof. unfold send_act. destruct (send_transaction sc t tx). discriminate. Qed.
+Lemma store_act_ok a t s t' : store_act a t = Abort s t' -> False.
+Proof.
+  unfold store_act, w_store_appointment. destruct (find_app (db_apps t) (app_uuid a)); [discriminate|].
+  destruct (amem (db_users t) (a_user a)); discriminate.
+Qed.
+Lemma delete_norefund_ok t us s t' : gk_delete_appointments t us false = Abort s t' -> False.
+Proof. unfold gk_delete_appointments. discriminate. Qed.
+
+Ltac abstep :=
+  match goal with
+  | |- absites _ _ (match ?x with _ => _ end) => destruct x
+  | |- absites _ _ (if ?x then _ else _) => destruct x
+  | |- _ /\ _ => split
+  | |- forall _, _ => intro
+  | |- absites _ _ ?p =>
+      match p with
+      | context [match ?x with _ => _ end] => is_var x; destruct x
+      | context [if ?x then _ else _] => is_var x; destruct x
+      | context [if ?f ?x then _ else _] => is_var x; destruct (f x)
+      | context [if ?c then _ else _] => destruct c
+      | context [store_triggered_p _ _ _] => unfold store_triggered_p
+      | context [match ?x with _ => _ end] => destruct x
+      end
+  | |- absites _ _ (pbind _ _) => apply absites_bind
+  end.
+Ltac abwalk :=
+  repeat (cbn [absites pbind acq rel act rd wr reach_p charge_p delete_apps_p authenticate_p expired_p send_p handle_breach_p
+                 store_appointment_p store_triggered_p cache_section_p has_tracker_p add_pre_p add_finish add_appointment_p
+                 get_appointment_p add_p get_p okout fst snd];
+          try abstep).
+Ltac ableaf :=
+  first [ exact I
+        | discriminate
+        | match goal with H : index_lookup _ _ = Abort _ _ |- _ => exact (index_lookup_abort _ _ _ _ H) end
+        | exfalso; match goal with
+                   | H : ask_mempool _ _ _ = Abort _ _ |- _ => exact (ask_mempool_ok _ _ _ _ _ H)
+                   | H : send_act _ _ _ = Abort _ _ |- _ => exact (send_act_ok _ _ _ _ _ H)
+                   | H : store_act _ _ = Abort _ _ |- _ => exact (store_act_ok _ _ _ _ H)
+                   | H : gk_delete_appointments _ _ false = Abort _ _ |- _ => exact (delete_norefund_ok _ _ _ _ H)
+                   end ].
+
+(* add_appointment: the only abort site left on the whole path is the responder's get_height unwrap *)
+Lemma add_sites sc signer loc b delay sig :
+  absites (fun s => s = S_r_get_height_unwrap) (okout (fun s => s = S_r_get_height_unwrap)) (add_p sc signer loc b delay sig).
+Proof. unfold add_p, add_appointment_p, add_pre_p, authenticate_p. abwalk; ableaf. Qed.
+
+(* get_appointment has no abort site at all *)
+Lemma get_sites signer loc : absites (fun _ => False) (okout (fun _ => False)) (get_p signer loc).
+Proof. unfold get_p, get_appointment_p, authenticate_p. abwalk; ableaf. Qed.
+
+(* ------------------------------------------------------------------------------------------ *)
 (* witnesses (evaluated by the kernel; every one is a schedule the C10 check replays on the code) *)
 
 Definition w_blocks : list (N * list N) := map (fun k => (1000 + 120 - N.of_nat k, @nil N)) (seq 0 100).
@@ -140,29 +277,20 @@ Lemma two_identical_adds_charged_twice :
   slots_of_user (fst (run_sched w_reg [w_add; w_add] (in_order [1; 0]%nat))) 1 = Some 9.
 Proof. vm_compute. repeat split; reflexivity. Qed.
 
-(* 2. register || purging block: the block decides who is outdated (3 events), the renewal runs to its end,
-      the block removes the user and everything he owns *)
-Definition w_lost_renewal : list nat := repeat 1%nat 3 ++ repeat 0%nat 40 ++ repeat 1%nat 200.
+(* the block that purges user 1 *)
 Definition w_connect_purge : prog out := prog_of_op true [] w_purge (OConnect 2011 []).
 
-Lemma renewal_acknowledged_and_lost :
-  let ps := [register_p 1; w_connect_purge] in
-  let r := run_sched w_purge ps w_lost_renewal in
-  snd r = [Some (TOut (ORegisterRes (RegOk 19 120 124))); Some (TOut OBlockRes)] /\
-  db_users (fst r) = [] /\ gk_users (fst r) = [] /\ db_apps (fst r) = [] /\
-  db_users (fst (run_sched w_purge ps (in_order [0; 1]%nat))) = [(1, mk_uinfo 19 120 124)] /\
-  db_users (fst (run_sched w_purge ps (in_order [1; 0]%nat))) = [(1, mk_uinfo 10 122 124)].
-Proof. vm_compute. repeat split; reflexivity. Qed.
-
-(* 3. get_appointment || purging block: authenticated (5 events), purged, has_subscription_expired(..).unwrap() *)
+(* 2. get_appointment || purging block: authenticated (5 events), purged, then has_subscription_expired finds
+      nobody: the reply is the authentication failure (it used to be `.unwrap()` on the missing user) *)
 Definition w_get_purged : list nat := repeat 0%nat 5 ++ repeat 1%nat 200 ++ repeat 0%nat 40.
 
-Lemma get_aborts_when_purged_in_between :
-  snd (run_sched w_purge [get_p (Some 1) 7; w_connect_purge] w_get_purged) =
-  [Some (TOut (OAbort S_api_expired_unwrap)); Some (TOut OBlockRes)].
-Proof. vm_compute. reflexivity. Qed.
+Lemma get_refused_when_purged_in_between :
+  let c := run_config (init_config w_purge [get_p (Some 1) 7; w_connect_purge]) w_get_purged in
+  map thread_result (cf_threads c) = [Some (TOut (OGetRes GetAuth)); Some (TOut OBlockRes)] /\
+  cf_poisoned c = [].
+Proof. vm_compute. repeat split; reflexivity. Qed.
 
-(* 4. add_appointment || the block with its dispute: the request reads the watcher's height (9 events), the block
+(* 3. add_appointment || the block with its dispute: the request reads the watcher's height (9 events), the block
       is processed, the request finds the dispute in the cache: start_block 120 next to a tracker stamped 121;
       the sequential orders give (120, 120) and (121, 121) *)
 Definition w_stamps : list nat := repeat 0%nat 9 ++ repeat 1%nat 400 ++ repeat 0%nat 100.
@@ -176,21 +304,22 @@ Lemma add_and_block_stamps_of_neither_order :
   stamps (fst (run_sched w_reg ps (in_order [1; 0]%nat))) = ([121], [121]).
 Proof. vm_compute. repeat split; reflexivity. Qed.
 
-(* 5. add_appointment || purging block: authenticated and not expired (8 events), purged, then
-      add_update_appointment's get_mut(&user_id).unwrap(): the users mutex stays poisoned *)
+(* 4. add_appointment || purging block: authenticated and not expired (12 events), purged, then
+      add_update_appointment finds nobody: refused (it used to be get_mut(&user_id).unwrap() under the users
+      lock, which stayed poisoned) *)
 Definition w_add_purged : list nat := repeat 0%nat 12 ++ repeat 1%nat 200 ++ repeat 0%nat 40.
 
-Lemma add_aborts_and_poisons_when_purged_in_between :
+Lemma add_refused_when_purged_in_between :
   let c := run_config (init_config w_purge [add_p [] (Some 1) 8 (mk_blob 8 (Some 108) 77) 20 2; w_connect_purge]) w_add_purged in
-  map thread_result (cf_threads c) = [Some (TOut (OAbort S_gk_charge_user_unwrap)); Some (TOut OBlockRes)] /\
-  cf_poisoned c = [L_users].
+  map thread_result (cf_threads c) = [Some (TOut (OAddRes AddAuthOrSlots)); Some (TOut OBlockRes)] /\
+  cf_poisoned c = [] /\ db_apps (cf_tower c) = [] /\ db_users (cf_tower c) = [].
 Proof. vm_compute. repeat split; reflexivity. Qed.
 
 (* ------------------------------------------------------------------------------------------ *)
 (* the guard is necessary: add_appointment with the locator-cache guard dropped after the look-up (the
    store happens outside the critical section) — everything else unchanged — misses a breach: the
    block updates the cache and asks the database between the look-up and the store *)
-Definition cache_section_short (sc : script) (a : app) : prog unit :=
+Definition cache_section_short (sc : script) (a : app) : prog bool :=
   acq L_cache ;;; od <- rd (fun t => ti_get (w_cache t) (a_loc a)) ;; rel L_cache ;;;
   match od with
   | Some dispute => store_triggered_p sc a dispute
@@ -202,7 +331,9 @@ Definition add_short (sc : script) (signer : option N) (loc : N) (b : blob) (del
   x <- add_pre_p signer loc b delay sig ;;
   match x with
   | inl r => Ret (OAddRes r)
-  | inr (a, available, expiry) => cache_section_short sc a ;;; Ret (OAddRes (AddOk (a_start a) (a_sig a) available expiry))
+  | inr (a, available, expiry) =>
+      ok <- cache_section_short sc a ;;
+      Ret (OAddRes (if ok then AddOk (a_start a) (a_sig a) available expiry else AddAuthOrSlots))
   end.
 
 Definition w_short_guard : list nat := repeat 0%nat 24 ++ repeat 1%nat 400 ++ repeat 0%nat 40.
